@@ -16,7 +16,7 @@ checks = []
 na = []
 for p in props:
     pid = p['id']
-    if pid in REGISTRY and pid in rules:
+    if pid in REGISTRY and REGISTRY[pid].get('ready'):
         r = rules[pid]
         checks.append(dict(
             property_id=pid,
